@@ -219,11 +219,17 @@ def check_case(case, ctx):
     tmp = tempfile.mkdtemp(prefix="c15-")
     try:
         fp = os.path.join(tmp, "w.json")
+        call(w.export_wallet, fp, 4, U)          # the unfiltered record is saved first, the filtered one over it
         st_, e = call(w.export_wallet, fp, 4, F)
         if st_ == "exc":
             raise Violation("C15/export/raised", "%s: export_wallet(filtered) raised %r" % (what, e))
         with open(fp) as f:
-            outputs.append(("export_wallet() file", json.load(f)))
+            text = f.read()
+        try:
+            outputs.append(("export_wallet() file written over the unfiltered export", json.loads(text)))
+        except ValueError:
+            raise Violation("C15/export/not-json", "%s: the filtered export written over an earlier unfiltered export of the "
+                            "same path is not JSON any more (%d characters)" % (what, len(text)))
         if case["cli"]:
             to_file = bool(case.get("cli_file"))
             argv = (["--paranoia", "--account", str(account), "--interval", str(interval[0]), str(interval[1])]
@@ -246,6 +252,24 @@ def check_case(case, ctx):
                             raise Violation("C15/cli/private-key-encoding", "%s: CLI printed %s" % (what, tok))
             else:
                 ctx.count("cli-rejected-arguments")
+            # the requested file cannot be written (its parent is a regular file): whatever happens, no secret on stdio
+            with open(os.path.join(tmp, "plainfile"), "w") as f:
+                f.write("x")
+            argv2 = ["--paranoia", "--file", os.path.join(tmp, "plainfile", "out.json"), "--interval", "0", "1"] \
+                + (["--testnet"] if testnet and case["source"] != "xprv" else []) + argv_src
+            r2 = cli.run_main(argv2, cwd=tmp)
+            for stream, text in (("stdout", r2["out"]), ("stderr", r2["err"])):
+                try:
+                    blob = json.loads(text)
+                except ValueError:
+                    blob = None
+                if isinstance(blob, dict):
+                    judge_output("C15/leak", "%s, CLI --paranoia with an unwritable --file, %s" % (what, stream), blob, U, secrets, scalars, ctx)
+                for tok in re.split(r"[\s\",:\[\]{}]+", text):
+                    if tok and C.classify(tok)["kind"] in ("wif", "xprv"):
+                        raise Violation("C15/cli/private-key-encoding", "%s: CLI with an unwritable --file printed %s on %s" % (what, tok, stream))
+                if case["source"] == "mnemonic" and R39.encode(case["entropy"]) in text:
+                    raise Violation("C15/cli/mnemonic-printed", "%s: CLI with an unwritable --file printed the mnemonic on %s" % (what, stream))
     finally:
         shutil.rmtree(tmp, ignore_errors=True)
     for name, out in outputs:
